@@ -45,4 +45,23 @@ def OrderOK (l r m : List (Key × Node)) : Prop :=
   (keys m).filter (fun k => (keys l).contains k) = keys l ∧
   (keys m).filter (fun k => !(keys l).contains k) = (keys r).filter (fun k => !(keys l).contains k)
 
+/-- What a DEEP hash merge of a right-hand mapping (`par`, consulted for per-node rules) leaves under
+the key `k`, as a relation between `l.get(k)`, the right-hand value `rv = r[k]` and `m.get(k)`:
+
+* a key only in `r` gets `r`'s value;
+* a key in both: the policy of the right-hand value's own kind (or a rule registered for that node)
+  decides — LEFT keeps the left-hand value, RIGHT takes the right-hand value, otherwise the value is
+  the recursive merge `mergeVal` of the two values (which must succeed).
+
+Keys that `r` does not name are covered by `lookupKey k m = lookupKey k l` in the theorems. -/
+inductive Merged (env : Env) (par : Node) (k : Key) : Option Node → Node → Option Node → Prop
+  | rightOnly (rv : Node) : Merged env par k none rv (some rv)
+  | keepLeft (lv rv : Node) : shortCircuit env ⟨rv, some par, some (.key k)⟩ = .ok .keepLeft →
+      Merged env par k (some lv) rv (some lv)
+  | takeRight (lv rv : Node) : shortCircuit env ⟨rv, some par, some (.key k)⟩ = .ok .takeRight →
+      Merged env par k (some lv) rv (some rv)
+  | deep (lv rv m : Node) : shortCircuit env ⟨rv, some par, some (.key k)⟩ = .ok .goDeep →
+      mergeVal env lv ⟨rv, some par, some (.key k)⟩ rv = .ok m →
+      Merged env par k (some lv) rv (some m)
+
 end Ypv.Merge.Spec
